@@ -1,4 +1,4 @@
-import PoolModel.C10Snapshot
+import PoolModel.C10Db
 import PoolModel.Util
 /-! Line-protocol driver of the C10 model. Every op carries bytes produced by the real code (hex; `-` = empty,
 `nil` = absent key) and prints the model's decoding in a canonical text form plus `re=1` when the model's
@@ -13,6 +13,7 @@ import PoolModel.Util
   snap <hex>                       deserializeLocalBatchSnapshot (maps rendered sorted by key)
   snapfull <hex> (<nonce> <base> <minunits> <tlv> <tier>)*   + completion of own orders (GetLocalBatchSnapshot)
   addrs <hex>                      lnwire net address list
+  copyord <nonce> <base> <minunits> <tlv> <tier> <dstTier>   copyOrder of MarkBatchComplete on bucket values
 -/
 namespace Pool.C10
 open Pool.Util
@@ -192,6 +193,17 @@ def drvStep (s : DrvSt) (args : List String) : DrvSt × String :=
           | .err => "err"
           | .panic => "panic")
     | _, _, _, _, _ => (s, "bad-op")
+  | ["copyord", n, b, mu, t, ti, dt] =>
+    match unhex n, optBytes b, optBytes mu, optBytes t, optBytes ti, optBytes dt with
+    | some n, some b, some mu, some t, some ti, some dt =>
+      let tok := fun (o : Option Bytes) => match o with
+        | some x => hx x
+        | none => "nil"
+      (s, match copyOrderRec n ⟨b, mu, t, ti⟩ dt with
+          | .ok r _ => s!"ok {tok r.base} {tok r.minUnits} {tok r.tlv} {tok r.tier}"
+          | .err => "err"
+          | .panic => "panic")
+    | _, _, _, _, _, _ => (s, "bad-op")
   | ["ordbase", n, h] =>
     match unhex n, unhex h with
     | some n, some b => (s, renderRes b (deserializeOrder n b) renderOrder (fun o => some (serializeOrder o)))
